@@ -222,8 +222,18 @@ Definition server_case_ok (c : server_case) : bool :=
 Definition server_case_out (c : server_case) : s_outcome :=
   s_result (s_run (sc_cfg c) (run_env (sc_tables c) (sc_policy c)) (sc_chunks c)).
 
+(* the factory's URL as urllib sees it: urlparse(url) and unquote(path or "/"), plus what the factory stored as its path *)
+Record url_case := { uc_parsed : urlparse_full; uc_unquoted : str; uc_factory_path : str }.
+
+Definition url_case_ok (c : ccfg) (u : url_case) : bool :=
+  match parse_url (fun _ => uc_unquoted u) (uc_parsed u) with
+  | Some p => str_eqb (u_host p) (c_host c) && (u_port p =? c_port c)%Z && str_eqb (u_resource p) (c_resource c)
+              && str_eqb (u_path p) (uc_factory_path u)
+  | None => false
+  end.
+
 Record client_case := {
-  cc_cfg : ccfg; cc_nonce : list N; cc_tables : tables;
+  cc_cfg : ccfg; cc_url : option url_case; cc_nonce : list N; cc_tables : tables;
   cc_request : str;                      (* octets the implementation wrote in connectionMade *)
   cc_chunks : list str; cc_expect : c_outcome }.
 
@@ -232,7 +242,8 @@ Definition header_of (chunks : list str) : option str :=
 
 Definition client_case_ok (c : client_case) : bool :=
   let e := run_env (cc_tables c) PNone in
-  str_eqb (c_request (cc_cfg c) (cc_nonce c)) (cc_request c)
+  match cc_url c with Some u => url_case_ok (cc_cfg c) u | None => true end
+  && str_eqb (c_request (cc_cfg c) (cc_nonce c)) (cc_request c)
   && c_outcome_eqb (c_result (c_run (cc_cfg c) e (client_key (cc_nonce c)) (cc_chunks c))) (cc_expect c).
 
 Definition client_case_out (c : client_case) :=
